@@ -8,7 +8,8 @@ from e2e import common, run_e2e, runner, upstream
 from . import rel
 
 EXPECTED = ["C11_codename_iff", "C11_validate_iff", "C11_order_independent", "C11_only_sections", "C11_rounds_first",
-            "C11_rounds_all_invalid"]
+            "C11_rounds_all_invalid", "C11_round_drops_unobtained", "C11_stage_drops_unobtained", "C11_stage_first",
+            "C11_stage_all_invalid"]
 LEVEL = "proof"
 RULE = ("release-level: generated InRelease/Release pairs per codename (equal; differing in one size / one hash of one algorithm / "
         "the set of listed files; one or both absent; entries with non-positive sizes or release-file names that must be "
@@ -220,7 +221,146 @@ def observe_mod():
     return observe
 
 
+def stage_one(chk, sseed):
+    """the release-file stage in skel: the real `RepositoryMirror.download_release_files` (its loop, reset/add/download, the drop of
+    release files the round did not obtain, the retry budget) over the scripted transport, from a skel that already holds release
+    files of an earlier or killed run (stale flavours, torsos), with the verdict of validate_release_files scripted per round -
+    against `Model/ReleaseStage.releaseStage`: outcome, number of rounds, requests, skel content, obtained paths; and the theorem
+    `C11_stage_drops_unobtained` evaluated on the real result (a release file in skel afterwards was obtained by the last round)"""
+    import logging
+    from collections import Counter
+    from pathlib import Path
+    from types import SimpleNamespace
+    from core import fsutil
+    from core.driver import driver
+    from core.realdl import BASE, make_settings, parts, populate
+    from core.transport import Net, Resp, ScriptedDownloader, gen_content
+    from props import l1
+    from apt_mirror.apt_mirror import RepositoryMirror
+    from apt_mirror.repository import InvalidReleaseFilesException
+    rng = random.Random(sseed)
+    tagc = [0]
+    cns = [f"s{i}" for i in range(rng.randint(1, 2))]
+    names = [f"dists/{c}/{n}" for c in cns for n in ("InRelease", "Release", "Release.gpg")]
+    fs = []
+    for n in names:
+        if rng.random() < 0.5:
+            tagc[0] += 1
+            fs.append({"path": n, "size": rng.randint(0, 30), "mtime": rng.choice(l1.DATES + [None]), "tag": tagc[0], "group": len(fs)})
+    retries = rng.choice([0, 1, 2, 3, 3, 5])
+    valid = [rng.random() < 0.45 for _ in range(8)]
+    if rng.random() < 0.2:
+        valid = [False] * 8
+    scripts = {}
+    for n in names:
+        shape = rng.choice(["rounds", "rounds", "gone", "flaky", "late-gone", "random"])
+        if shape == "rounds":        # one good answer per round (sometimes the same dated file again: unmodified)
+            sc, last = [], None
+            for _ in range(rng.randint(1, 6)):
+                if last is not None and rng.random() < 0.5:
+                    sc.append(Resp("ok", announced=len(last.data), date=last.date, data=last.data, chunks=last.chunks, tag=last.tag))
+                else:
+                    last = l1.good_resp(rng, 0, tagc, date=rng.choice(l1.DATES))
+                    sc.append(last)
+        elif shape == "gone":
+            sc = []
+        elif shape == "flaky":
+            sc = [l1.bad_resp(rng, 0, tagc) for _ in range(rng.randint(1, 12))] + [l1.good_resp(rng, 0, tagc)]
+        elif shape == "late-gone":   # present in the first round(s), withdrawn afterwards
+            sc = [l1.good_resp(rng, 0, tagc) for _ in range(rng.randint(1, 2))]
+        else:
+            sc = [l1.good_resp(rng, 0, tagc) if rng.random() < 0.4 else l1.bad_resp(rng, 0, tagc) for _ in range(rng.randint(0, 14))]
+        scripts[n] = sc
+    replay = {"scenario_seed": sseed, "stage": True, "names": names, "fs": fs, "retries": retries, "valid": valid,
+              "scripts": {k: [r.to_json() for r in v] for k, v in scripts.items()}}
+    # --- the implementation
+    root = fsutil.workdir("c11stage")
+    populate(root, fs)
+    net = Net()
+    net.scripts = {f"{BASE}/{k}": list(v) for k, v in scripts.items()}
+    ScriptedDownloader.NET = net
+    rounds = [0]
+    holder = {}
+
+    def validate(skel, encode_tilde):
+        i = rounds[0]
+        rounds[0] += 1
+        if not (valid[i] if i < len(valid) else False):
+            raise InvalidReleaseFilesException("scripted verdict")
+
+    async def main():
+        d = ScriptedDownloader(settings=make_settings(root, rng.choice([1, 2, 4])))
+        holder["d"] = d
+        me = SimpleNamespace(
+            _log=logging.getLogger("c11stage"), _error=False, _downloader=d,
+            _repository=SimpleNamespace(release_files=[Path(n) for n in names], get_mirror_path=lambda enc: Path("."),
+                                        validate_release_files=validate),
+            _config=SimpleNamespace(release_files_retries=retries, skel_path=Path(root), encode_tilde=False))
+        holder["me"] = me
+        return await RepositoryMirror.download_release_files(me)
+
+    try:
+        out, loop = vloop.run(main(), vloop.RandomChooser(rng.randrange(1 << 30)))
+    except Exception as ex:
+        fsutil.rmtree(root)
+        chk.violation("stage-raises", replay, f"download_release_files raised {ex!r}")
+        chk.evaluated(("stage", "raise"))
+        return
+    d = holder["d"]
+    real = {"result": (None if not out else bool(d.has_errors())), "rounds": rounds[0],
+            "obtained": sorted(parts(p) for p in d.get_downloaded_files_paths()),
+            "reqs": Counter(u[len(BASE) + 1:] for u in net.log), "fs": l1.real_listing(root), "error_flag": holder["me"]._error}
+    fsutil.rmtree(root)
+    # --- the model
+    fsj = [[parts(e["path"]), e["size"], e["mtime"], e["tag"], e["group"]] for e in fs]
+    orc = [[parts(k), [r.to_model() for r in v]] for k, v in scripts.items()]
+    model = driver().call("release_stage", root=[], fs=fsj, names=[parts(n) for n in names], oracle=orc, valid=valid, retries=retries)
+    dis = []
+    if real["result"] != model["result"]:
+        dis.append(f"outcome: real={real['result']} model={model['result']}")
+    if real["rounds"] != model["rounds"]:
+        dis.append(f"rounds: real={real['rounds']} model={model['rounds']}")
+    if real["obtained"] != sorted(model["obtained"]):
+        dis.append(f"obtained paths: real={real['obtained']} model={sorted(model['obtained'])}")
+    mreq = Counter("/".join(p) for p in model["reqs"])
+    if dict(real["reqs"]) != dict(mreq):
+        dis.append(f"request counts: real={dict(real['reqs'])} model={dict(mreq)}")
+    mfs = {"/".join(e[0]): e for e in model["fs"]}
+    rfs = {e["path"]: e for e in real["fs"]}
+    if sorted(mfs) != sorted(rfs):
+        dis.append(f"skel file sets: real-only={sorted(set(rfs) - set(mfs))} model-only={sorted(set(mfs) - set(rfs))}")
+    else:
+        for pth in sorted(rfs):
+            r, m = rfs[pth], mfs[pth]
+            if r["size"] != m[1] or r["mtime"] != m[2] or r["data"] != gen_content(m[3], m[1]):
+                dis.append(f"{pth}: real size/mtime={r['size']}/{r['mtime']} model={m[1]}/{m[2]} (content tag {m[3]})")
+    # --- the theorem's statement on the implementation's result
+    obtained = {"/".join(p) for p in real["obtained"]}
+    for e in real["fs"]:
+        if e["path"] in names and e["path"] not in obtained:
+            chk.violation("stage:unobtained-release-file-left", replay,
+                          f"{e['path']} is in skel after the release-file stage although the last round did not obtain it "
+                          f"(rounds={real['rounds']}, outcome={real['result']})")
+    if real["result"] is not None and real["error_flag"] != real["result"]:
+        chk.violation("stage:error-flag", replay, f"has_errors()={real['result']} but the repository's error flag is {real['error_flag']}")
+    bound = max(1, retries)
+    if real["rounds"] > bound or (real["result"] is None and real["rounds"] != bound):
+        chk.violation("stage:round-budget", replay, f"{real['rounds']} rounds with release_files_retries={retries}, outcome {real['result']}")
+    if valid[0] and real["rounds"] != 1:
+        chk.violation("stage:first-round-valid", replay, f"valid in the first round but {real['rounds']} rounds were run")
+    if dis:
+        chk.violation("correspondence-release-stage", dict(replay, disagreement=dis, correspondence="Model/ReleaseStage.releaseStage vs RepositoryMirror.download_release_files"), dis[0], no_input=True)
+    stale_left = sum(1 for e in fs if e["path"] not in obtained)
+    chk.evaluated(("stage", real["rounds"], real["result"], stale_left > 0, len(obtained)),
+                  sample={"stage": True, "rounds": real["rounds"], "result": real["result"], "stale_dropped": stale_left})
+    chk.count("release_stage_runs")
+    if stale_left:
+        chk.count("release_stage_runs_dropping_a_stale_file")
+
+
 def run(chk, tier, rng):
+    for i in range(60 if tier == "quick" else 1500):
+        stage_one(chk, f"C11s-{chk.seed}-{i}")
     n = 150 if tier == "quick" else 4000
     for i in range(n):
         l0_one(chk, random.Random(f"C11-{chk.seed}-{i}"))
@@ -238,7 +378,7 @@ def replay(rep):
         from core.check import Check
         chk = Check("C11", "quick", 0)
         chk.known = []
-        (hist_one if r.get("history") else e2e_one)(chk, r["scenario_seed"])
+        (stage_one if r.get("stage") else hist_one if r.get("history") else e2e_one)(chk, r["scenario_seed"])
         for sig, path, msg, _ in chk.violations:
             print(f"REPLAY VIOLATION {sig}: {msg}")
         return 1 if chk.violations else 0
